@@ -1155,6 +1155,24 @@ pub fn history(mode: &str, idx: u64, rng: &mut Rng, thorough: bool, timeout_ms: 
             // the hull (everything between hull and rectangle is outer region) and vertices close
             // to the middle of a rectangle side, inside or outside (obtuse faces whose
             // circumcentre lies across the constraint)
+            // "ulp" setup: a thin triangle whose hull edge joins two neighbouring floats — the
+            // midpoint of that segment is not representable, a split position rounds onto an end
+            // point or onto the line of the neighbouring edge
+            if rng.chance(100) {
+                let big = if tag == 'd' { 9007199254740992.0 } else { 16777216.0 };
+                let h = *rng.pick(&[0.5, 1.0, 2.0]);
+                ctx.op(ins_op(&ctx, (big, 0.0), 70));
+                ctx.op(ins_op(&ctx, (big + 2.0, 0.0), 71));
+                ctx.op(ins_op(&ctx, (big, h), 72));
+                if rng.chance(300) {
+                    ctx.op(ins_op(&ctx, (big + 2.0, h), 73));
+                }
+                let angle = *rng.pick(&[0.0, 0.0, 20.0]);
+                let budget = if rng.chance(500) { s("-") } else { rng.pick(&[1u64, 3, 10]).to_string() };
+                ctx.op(vec![s("refine"), format!("d{:016x}", (angle as f64).to_bits()), s("-"), s("-"), budget, s("0"), s("0")]);
+                ctx.finish();
+                return;
+            }
             let region = rng.chance(250);
             if region {
                 for (i, (x, y)) in [(-w, -h), (2.0 * w, -h), (2.0 * w, 2.0 * h), (-w, 2.0 * h)].iter().enumerate() {
